@@ -1390,7 +1390,10 @@ class Evaluator:
                     if isinstance(a_, (set, frozenset)):
                         self.events.append(("set-order-consumed", f.path, node))
                 fn_ = getattr(_it, f.path.split(".")[1])
-                return _Iter([tuple(x) if not f.path.endswith("chain") else x for x in fn_(*seqs, **{k: v for k, v in kwargs.items() if isinstance(v, int)})])
+                try:
+                    return _Iter([tuple(x) if not f.path.endswith("chain") else x for x in fn_(*seqs, **{k: v for k, v in kwargs.items() if isinstance(v, int)})])
+                except (TypeError, ValueError) as exc:  # the library itself refuses these arguments: the analysed program's exception
+                    raise Raised(type(exc).__name__, node, str(exc))
             if f.path == "re.compile" and "re.compile" not in self.models:
                 if not args or not isinstance(args[0], str):
                     raise Unmodelled("re.compile of a non-constant pattern", node)
@@ -1487,6 +1490,18 @@ class Evaluator:
                     else:
                         acc = self.call(fn_, [acc, x], {}, node)
                 return acc
+            if f.path == "numpy.flip" and args and isinstance(args[0], Obj) and len(args) <= 2:
+                # np.flip(x) reverses every axis, np.flip(x, axis=k) one of them: the same selection as a [::-1] subscript
+                ax = args[1] if len(args) > 1 else kwargs.get("axis")
+                nd = args[0].attrs.get("ndim")
+                rev_ = SliceV(None, None, -1)
+                if ax is None and nd == 1 or ax == 0:
+                    return args[0].with_eff(("getitem", rev_))
+                if ax == -1 or (isinstance(ax, int) and isinstance(nd, int) and ax == nd - 1):
+                    return args[0].with_eff(("getitem", (Ellipsis, rev_)))
+                if ax is None and isinstance(nd, int) and nd > 1:
+                    return args[0].with_eff(("getitem", (rev_,) * nd))
+                raise Unmodelled(f"np.flip with axis={ax!r} on an array of {nd!r} dimensions", node)
             self.events.append(("extcall", f.path, args, kwargs, node))
             if f.path.endswith("warnings.warn"):
                 return None
@@ -1956,7 +1971,9 @@ class Evaluator:
             items = self.iterate(args[0], node)
             vals = []
             for x in items:
-                if x is TOP or isinstance(x, Obj):
+                if isinstance(x, Obj) and "__bool__" in x.attrs:
+                    vals.append(bool(x.attrs["__bool__"]))  # a modelled object that knows its truth value (e.g. a regex match)
+                elif x is TOP or isinstance(x, Obj):
                     vals.append(TOP)
                 else:
                     vals.append(bool(x) if not isinstance(x, (Sym, Lin)) else True)
